@@ -1,9 +1,12 @@
-(* Proofs/ExprReadJuxt.v — C19, clause 2 (partial), WITH juxtaposition: the fragment of
-   Proofs/ExprRead.v extended by the juxtapositions the code supports (number·variable, number·constant,
-   number·(, variable/constant·number, ·variable, ·constant, ·( — i.e. exactly where
-   implied_multiplication_pass inserts its CDot token).  The parser runs on [implied_mul ts], the reference
-   reader on the raw [ts]; every rest of the parser is [glue t s] for the last raw token t consumed and the
-   raw rest s. *)
+(* Proofs/ExprReadJuxt.v — C19, clause 2: the simulation between the precedence-climbing parser and the
+   stratified reference reader, on token lists written with numbers, variables, constants, functions,
+   parentheses, + - * / ^ !, prefix minus anywhere, and the juxtapositions the code supports (exactly where
+   implied_multiplication_pass inserts its CDot token).  Not covered: % and an explicit · (outside the
+   property's operator list; the code gives them their own binding powers).
+   The parser runs on [implied_mul ts], the reference reader on the raw [ts]; every rest of the parser is
+   [glue t s] for the last raw token t consumed and the raw rest s.  The two trees agree up to the paren flags
+   and up to the scope of a leading minus of a product: the parser reads -a*b/c as -((a*b)/c), the reference
+   as ((-a)*b)/c — relation [simr], which implies equal values (the minus commutes with * and /). *)
 From Coq Require Import ZArith NArith List Bool Lia.
 From SV Require Import Base.Num Base.Outcome Base.Str Model.Expr Model.RefExpr Proofs.ExprTotal Proofs.ExprRead.
 Import ListNotations.
@@ -33,25 +36,63 @@ Section ReadJ.
   Proof. intros H. destruct s as [|b s]; [reflexivity|]. cbn [glue]. rewrite H. reflexivity. Qed.
 
   (* ---- the fragment ------------------------------------------------------------------------------------ *)
-  Definition pair_okJ (a b : tok) : bool :=
-    (negb (ends_operand a && starts_atom b) || needs_cdot a b)
-    && match b with TOp OSub => ends_operand a | _ => true end.
+  (* tokens: everything except % and an explicit · *)
+  Definition plain (t : tok) : bool :=
+    match t with TOp ORem => false | TOp OCDot => false | _ => true end.
+  (* neighbours: an operand end is followed by an operand start only where the code inserts a CDot *)
+  Definition pair_okJ (a b : tok) : bool := negb (ends_operand a && starts_atom b) || needs_cdot a b.
   Fixpoint fragJ (ts : list tok) : bool :=
     match ts with
     | a :: r => plain a && match r with b :: _ => pair_okJ a b | [] => true end && fragJ r
     | [] => true
     end.
-  Definition fragmentJ (ts : list tok) : Prop := fragJ ts = true /\ no_minus_head ts.
 
   Lemma fragJ_cons a r : fragJ (a :: r) = true -> plain a = true /\ fragJ r = true.
   Proof. cbn [fragJ]. intros H. apply andb_prop in H as [H H2]. apply andb_prop in H as [H1 _]. auto. Qed.
   Lemma fragJ_pair a b r : fragJ (a :: b :: r) = true -> pair_okJ a b = true.
   Proof. cbn [fragJ]. intros H. apply andb_prop in H as [H _]. apply andb_prop in H as [_ H]. exact H. Qed.
 
+  (* ---- code tree ~ reference tree ------------------------------------------------------------------------ *)
+  Definition prodo (o : oper) : Prop := o = OMul \/ o = ODiv \/ o = ORem.
+  (* the reference puts the minus on the first factor of a product *)
+  Inductive Push : tree -> tree -> Prop :=
+  | Push_here u : Push u (EPre OSub u)
+  | Push_bin o A B x p : prodo o -> Push A B -> Push (EBin o A x p) (EBin o B x p).
+
+  Inductive simr : tree -> tree -> Prop :=
+  | sr_num x : simr (ENum x) (ENum x)
+  | sr_var v : simr (EVar v) (EVar v)
+  | sr_const c : simr (EConst c) (EConst c)
+  | sr_fun f i i' : simr i i' -> simr (EFun f i) (EFun f i')
+  | sr_pre o v v' : simr v v' -> simr (EPre o v) (EPre o v')
+  | sr_post o v v' : simr v v' -> simr (EPost o v) (EPost o v')
+  | sr_bin o l l' r r' p p' : simr l l' -> simr r r' -> simr (EBin o l r p) (EBin o l' r' p')
+  | sr_push v u w : simr v u -> Push u w -> simr (EPre OSub v) w.
+
+  Lemma simr_set_paren e x : simr e x -> simr (set_paren e) x.
+  Proof. intros H. destruct e; try exact H. cbn [set_paren]. inversion H; subst. constructor; assumption. Qed.
+
+  Lemma product_op_range (t : tok) o : product_op t = Some o -> prodo o.
+  Proof.
+    destruct t as [| |o'| | | |]; cbn; try discriminate. unfold prodo.
+    destruct o'; cbn; try discriminate; intros E; injection E as <-; auto.
+  Qed.
+
+  Lemma chain_push : forall k operand (acc acc' : tree) (ts : list tok) u s,
+    Push acc acc' -> chain k operand product_op acc ts = Some (u, s) ->
+    exists w, chain k operand product_op acc' ts = Some (w, s) /\ Push u w.
+  Proof.
+    induction k as [|k IH]; intros operand acc acc' ts u s HP H; [discriminate|].
+    cbn [chain] in H |- *. destruct ts as [|t r]; [injection H as <- <-; eauto|].
+    destruct (product_op t) as [o|] eqn:Eo; [|injection H as <- <-; eauto].
+    destruct (operand r) as [[x r']|]; [|discriminate].
+    apply (IH _ _ (EBin o acc' x false) _ _ _ (Push_bin o acc acc' x false (product_op_range _ _ Eo) HP) H).
+  Qed.
+
   (* t is the last raw token consumed, s the raw rest *)
   Definition Inv (t : tok) (s : list tok) : Prop := ends_operand t = true /\ fragJ (t :: s) = true.
 
-  Lemma needs_cdot_starts (a b : tok) : needs_cdot a b = true -> plain b = true -> starts_atom b = true.
+  Lemma needs_cdot_starts (a b : tok) : needs_cdot a b = true -> starts_atom b = true.
   Proof. destruct a, b; cbn; try discriminate; reflexivity. Qed.
 
   Lemma atom_no_op (b : tok) (opof : tok -> option oper) :
@@ -62,10 +103,9 @@ Section ReadJ.
   Qed.
   Lemma power_op_is_op (t : tok) : power_op t <> None -> exists o, t = TOp o.
   Proof. destruct t; cbn; try congruence. eauto. Qed.
-  Lemma product_op_is_op (t : tok) : product_op t <> None -> exists o, t = TOp o.
-  Proof. destruct t; cbn; try congruence. eauto. Qed.
-  Lemma sum_op_is_op (t : tok) : sum_op t <> None -> exists o, t = TOp o.
-  Proof. destruct t; cbn; try congruence. eauto. Qed.
+
+  Lemma atom_no_minus (b : tok) s : starts_atom b = true -> no_minus_head (b :: s).
+  Proof. destruct b as [| |o| | | |]; cbn; try discriminate; auto. Qed.
 
   (* the two shapes of a rest *)
   Lemma glue_cases t s : Inv t s ->
@@ -77,10 +117,9 @@ Section ReadJ.
   Proof.
     intros (Ht & Hf). destruct s as [|b s0]; [left; split; reflexivity|]. right.
     pose proof (fragJ_pair _ _ _ Hf) as Hp.
-    destruct (fragJ_cons _ _ Hf) as (_ & Hf'). destruct (fragJ_cons _ _ Hf') as (Hpb & _).
     cbn [glue]. destruct (needs_cdot t b) eqn:En.
     - left. exists b, s0. split; [reflexivity|]. split; [first [reflexivity|exact En]|].
-      split; [apply (needs_cdot_starts t b En Hpb)|reflexivity].
+      split; [apply (needs_cdot_starts t b En)|reflexivity].
     - right. exists b, s0. split; [reflexivity|]. split; [first [reflexivity|exact En]|].
       split; [|apply im_cons].
       unfold pair_okJ in Hp. rewrite Ht, En in Hp. cbn in Hp.
@@ -127,10 +166,11 @@ Section ReadJ.
     if 6 <=? bp then LExponent else if 5 <=? bp then LPower else if 3 <=? bp then LUnary
     else if 2 <=? bp then LProduct else LSum.
 
+  (* bp = 5 is the operand of a juxtaposition: it starts with an atom, never with a minus *)
   Definition SimJ (f : nat) : Prop :=
-    forall s bp e r', fragJ s = true -> no_minus_head s ->
+    forall s bp e r', fragJ s = true -> (bp = 5 -> no_minus_head s) ->
       @parse_expr T f (implied_mul s) bp = Ok (e, r') ->
-      exists s' t n, rd n (level_ofJ bp) s = Some (erase e, s') /\ r' = glue t s' /\ Inv t s'.
+      exists s' t n x, rd n (level_ofJ bp) s = Some (x, s') /\ simr e x /\ r' = glue t s' /\ Inv t s'.
 
   Definition TailsOk (bp : nat) (acc : tree) (s : list tok) (x : tree) (s'' : list tok) : Prop :=
     exists K0 N0, forall K1 K2 K3 K4 N, K0 <= K1 -> K0 <= K2 -> K0 <= K3 -> K0 <= K4 -> N0 <= N ->
@@ -160,17 +200,17 @@ Section ReadJ.
   Qed.
 
   Lemma bin_loopJ f : SimJ f ->
-    forall n l t s bp e r'', Inv t s -> head_not_fac (glue t s) ->
+    forall n l t s bp e r'' acc, Inv t s -> head_not_fac (glue t s) -> simr l acc ->
       bin_loop (parse_expr f) n l (glue t s) bp = Ok (e, r'') ->
-      exists s'' t'', r'' = glue t'' s'' /\ Inv t'' s'' /\ TailsOk bp (erase l) s (erase e) s''.
+      exists s'' t'' x, r'' = glue t'' s'' /\ Inv t'' s'' /\ simr e x /\ TailsOk bp acc s x s''.
   Proof.
-    intros HSim. induction n as [|n IH]; intros l t s bp e r'' HI Hnf H; [discriminate|].
+    intros HSim. induction n as [|n IH]; intros l t s bp e r'' acc HI Hnf Hacc H; [discriminate|].
     cbn [bin_loop] in H.
-    assert (Hstop : forall (x : tree) (rr : list tok), Ok (l, glue t s) = Ok (x, rr) ->
+    assert (Hstop : forall (y : tree) (rr : list tok), Ok (l, glue t s) = Ok (y, rr) ->
               match glue t s with TOp o :: _ => o <> OFac /\ binding_pow o < bp | _ => True end ->
-              exists s'' t'', rr = glue t'' s'' /\ Inv t'' s'' /\ TailsOk bp (erase l) s (erase x) s'').
-    { intros x rr Hx Ho. injection Hx as <- <-. exists s, t. split; [reflexivity|]. split; [exact HI|].
-      apply (tails_stopJ t); assumption. }
+              exists s'' t'' x, rr = glue t'' s'' /\ Inv t'' s'' /\ simr y x /\ TailsOk bp acc s x s'').
+    { intros y rr Hy Ho. injection Hy as <- <-. exists s, t, acc. split; [reflexivity|]. split; [exact HI|].
+      split; [exact Hacc|]. apply (tails_stopJ t); assumption. }
     destruct (glue_cases t s HI) as [(-> & Eg)|[(b & s0 & -> & En & Hb & Eg)|(b & s0 & -> & En & Hb & Eg)]];
       rewrite Eg in H, Hnf, Hstop.
     - (* nothing left *) apply (Hstop _ _ H I).
@@ -182,17 +222,18 @@ Section ReadJ.
       apply Nat.ltb_ge in Eb. cbn [oper_eqb] in H.
       destruct (parse_expr f (implied_mul (b :: s0)) (4 + 1)) as [[rg r1]|e0|w] eqn:E; cbn [bind] in H; try discriminate.
       pose proof (parse_expr_head f _ _ _ _ E) as Hhead.
-      assert (Hnm : no_minus_head (b :: s0)) by (destruct b as [| |o| | | |]; try exact I; discriminate).
-      destruct (HSim _ _ _ _ Hfs Hnm E) as (s1 & t1 & n1 & Hoperand & -> & HI1).
-      destruct (IH _ _ _ _ _ _ HI1 (head_ok_not_fac _ _ Hhead) H) as (s'' & t'' & -> & HI'' & K0 & N0 & HIH).
-      exists s'', t''. split; [reflexivity|]. split; [exact HI''|].
+      destruct (HSim _ _ _ _ Hfs (fun _ => atom_no_minus b s0 Hb) E) as (s1 & t1 & n1 & xr & Hoperand & Hxr & -> & HI1).
+      destruct (IH _ _ _ _ _ _ (EBin OMul acc xr false) HI1 (head_ok_not_fac _ _ Hhead)
+                   (sr_bin OMul _ _ _ _ false false Hacc Hxr) H)
+        as (s'' & t'' & x & -> & HI'' & Hx & K0 & N0 & HIH).
+      exists s'', t'', x. split; [reflexivity|]. split; [exact HI''|]. split; [exact Hx|].
       exists (S (S K0)), (Nat.max N0 (8 * length (b :: s0) + 7)).
       intros K1 K2 K3 K4 N HK1 HK2 HK3 HK4 HN.
       pose proof (rd_lift _ _ _ _ _ N Hoperand ltac:(lia)) as Hop. clear Hoperand.
       destruct K1 as [|K1]; [lia|]. destruct K2 as [|K2]; [lia|].
       specialize (HIH (S K1) K2 K3 K4 N ltac:(lia) ltac:(lia) ltac:(lia) ltac:(lia) ltac:(lia)).
       destruct (skips t1 s1 5 HI1 Hhead) as (S1 & _ & _).
-      unfold tailsJ in HIH |- *. cbn [erase] in HIH.
+      unfold tailsJ in HIH |- *.
       destruct (Nat.leb_spec 6 bp); [lia|]. destruct (Nat.leb_spec 5 bp); [lia|].
       rewrite S1 in HIH by lia.
       cbn [chain]. rewrite (atom_no_op b power_op Hb power_op_is_op).
@@ -200,7 +241,7 @@ Section ReadJ.
     - (* a raw token *)
       destruct HI as (Ht & Hf). destruct (fragJ_cons _ _ Hf) as (_ & Hfs).
       destruct (fragJ_cons _ _ Hfs) as (Hplain & Hfs0).
-      destruct b as [x|v|op|fn|c| |]; try (apply (Hstop _ _ H I)).
+      destruct b as [y|v|op|fn|c| |]; try (apply (Hstop _ _ H I)).
       assert (Hnfac : op <> OFac) by (intros ->; exact Hnf).
       destruct (binding_pow op <? bp)%nat eqn:Eb.
       { apply (Hstop _ _ H). apply Nat.ltb_lt in Eb. auto. }
@@ -208,20 +249,20 @@ Section ReadJ.
       rewrite (glue_inert (TOp op) s0) in H by reflexivity.
       destruct (parse_expr f (implied_mul s0) (binding_pow op + 1)) as [[rg r1]|e0|w] eqn:E; cbn [bind] in H; try discriminate.
       pose proof (parse_expr_head f _ _ _ _ E) as Hhead.
-      assert (Hnm : no_minus_head s0).
-      { destruct s0 as [|b2 s2]; [exact I|]. pose proof (fragJ_pair _ _ _ Hfs) as Hp.
-        destruct b2 as [| |o2| | | |]; try exact I. destruct o2; try exact I.
-        unfold pair_okJ in Hp. destruct op; cbn in Hp; try discriminate. contradiction. }
-      destruct (HSim _ _ _ _ Hfs0 Hnm E) as (s1 & t1 & n1 & Hoperand & -> & HI1).
-      destruct (IH _ _ _ _ _ _ HI1 (head_ok_not_fac _ _ Hhead) H) as (s'' & t'' & -> & HI'' & K0 & N0 & HIH).
-      exists s'', t''. split; [reflexivity|]. split; [exact HI''|].
+      assert (Hn5 : binding_pow op + 1 = 5 -> no_minus_head s0).
+      { intros E5. exfalso. destruct op; cbn in E5, Hplain; try discriminate; lia. }
+      destruct (HSim _ _ _ _ Hfs0 Hn5 E) as (s1 & t1 & n1 & xr & Hoperand & Hxr & -> & HI1).
+      destruct (IH _ _ _ _ _ _ (EBin (if oper_eqb op OCDot then OMul else op) acc xr false) HI1
+                   (head_ok_not_fac _ _ Hhead) (sr_bin _ _ _ _ _ false false Hacc Hxr) H)
+        as (s'' & t'' & x & -> & HI'' & Hx & K0 & N0 & HIH).
+      exists s'', t'', x. split; [reflexivity|]. split; [exact HI''|]. split; [exact Hx|].
       exists (S (S K0)), (Nat.max N0 (8 * length s0 + 7)).
       intros K1 K2 K3 K4 N HK1 HK2 HK3 HK4 HN.
       pose proof (rd_lift _ _ _ _ _ N Hoperand ltac:(lia)) as Hop. clear Hoperand.
       destruct K1 as [|K1]; [lia|]. destruct K2 as [|K2]; [lia|].
       destruct K3 as [|K3]; [lia|]. destruct K4 as [|K4]; [lia|].
       destruct op; cbn in Hplain, Eb, Hhead, Hop; try discriminate; try contradiction;
-        cbn [oper_eqb] in HIH; cbn [erase] in HIH.
+        cbn [oper_eqb] in HIH.
       + (* Add *)
         specialize (HIH (S K1) (S K2) (S K3) K4 N ltac:(lia) ltac:(lia) ltac:(lia) ltac:(lia) ltac:(lia)).
         destruct (skips t1 s1 2 HI1 Hhead) as (S1 & S2 & S3).
@@ -271,28 +312,27 @@ Section ReadJ.
   Lemma bangs_nonfac (l : tree) b r : is_fac b = false -> bangs l (b :: r) = (l, b :: r).
   Proof. destruct b as [| |o| | | |]; try reflexivity. destruct o; try reflexivity. discriminate. Qed.
 
-  Lemma strip_fac_glue : forall s t (l : tree), Inv t s ->
-    exists t' s', strip_fac l (glue t s) = (fst (strip_fac l (glue t s)), glue t' s') /\
-                  bangs (erase l) s = (erase (fst (strip_fac l (glue t s))), s') /\ Inv t' s'.
+  Lemma strip_fac_glue : forall s t (l acc : tree), Inv t s -> simr l acc ->
+    exists t' s' acc', strip_fac l (glue t s) = (fst (strip_fac l (glue t s)), glue t' s') /\
+                       bangs acc s = (acc', s') /\ simr (fst (strip_fac l (glue t s))) acc' /\ Inv t' s'.
   Proof.
-    induction s as [|b s0 IH]; intros t l HI.
-    - exists t, []. cbn. repeat split; try reflexivity; apply HI.
+    induction s as [|b s0 IH]; intros t l acc HI Hacc.
+    - exists t, [], acc. cbn. repeat split; try reflexivity; try exact Hacc; apply HI.
     - destruct (glue_cases t (b :: s0) HI) as [(E & _)|[(b' & s' & E & En & Hb & Eg)|(b' & s' & E & En & Hb & Eg)]];
         [discriminate| |]; injection E as <- <-.
-      + (* an inserted CDot follows: no factorial sign *)
-        exists t, (b :: s0). rewrite Eg.
+      + exists t, (b :: s0), acc. rewrite Eg.
         rewrite (strip_fac_nonfac l (TOp OCDot)) by reflexivity. cbn [fst].
         assert (Hnb : is_fac b = false) by (destruct b as [| |o| | | |]; try reflexivity; discriminate).
-        rewrite (bangs_nonfac _ _ _ Hnb). rewrite <- Eg. repeat split; try reflexivity; apply HI.
+        rewrite (bangs_nonfac _ _ _ Hnb). rewrite <- Eg. repeat split; try reflexivity; try exact Hacc; apply HI.
       + destruct (is_fac b) eqn:Hfb.
         * destruct b as [| |o| | | |]; try discriminate. destruct o; try discriminate.
           destruct HI as (Ht & Hf). destruct (fragJ_cons _ _ Hf) as (_ & Hfs).
           assert (HI' : Inv (TOp OFac) s0) by (split; [reflexivity|exact Hfs]).
-          destruct (IH (TOp OFac) (EPost OFac l) HI') as (t' & s' & E1 & E2 & HI'').
-          exists t', s'. rewrite Eg. cbn [strip_fac bangs]. split; [exact E1|]. split; [exact E2|exact HI''].
-        * exists t, (b :: s0). rewrite Eg.
+          destruct (IH (TOp OFac) (EPost OFac l) (EPost OFac acc) HI' (sr_post _ _ _ Hacc)) as (t' & s' & acc' & E1 & E2 & E3 & HI'').
+          exists t', s', acc'. rewrite Eg. cbn [strip_fac bangs]. split; [exact E1|]. split; [exact E2|]. split; [exact E3|exact HI''].
+        * exists t, (b :: s0), acc. rewrite Eg.
           rewrite (strip_fac_nonfac l b _ Hfb). cbn [fst]. rewrite (bangs_nonfac _ _ _ Hfb).
-          rewrite <- Eg. repeat split; try reflexivity; apply HI.
+          rewrite <- Eg. repeat split; try reflexivity; try exact Hacc; apply HI.
   Qed.
 
   Lemma glue_rparen t s r2 : Inv t s -> glue t s = TRParen :: r2 ->
@@ -305,63 +345,156 @@ Section ReadJ.
     destruct HI as (_ & Hf). destruct (fragJ_cons _ _ Hf) as (_ & Hfs). split; [reflexivity|exact Hfs].
   Qed.
 
-  Lemma simJ : forall f, SimJ f.
+  Lemma bin_loop_exit rec n (l : tree) r bp : head_ok bp r -> bin_loop rec (S n) l r bp = Ok (l, r).
   Proof.
-    induction f as [|f IHf]; intros s bp e r' Hf Hnm H; [discriminate|].
-    destruct s as [|a s0]; [discriminate|].
-    rewrite im_cons in H. rewrite parse_expr_unfold in H.
-    destruct (fragJ_cons _ _ Hf) as (Hplain & Hf0).
-    (* the atom *)
-    assert (Hatom : exists l r0, prefix_part f (a :: glue a s0) = Ok (l, r0) /\
-              exists t1 s1 n, rd n LAtom (a :: s0) = Some (erase l, s1) /\ r0 = glue t1 s1 /\ Inv t1 s1).
-    { destruct (prefix_part f (a :: glue a s0)) as [[l r0]|e0|w] eqn:E; cbn [bind] in H; try discriminate.
-      exists l, r0. split; [reflexivity|]. unfold prefix_part in E.
-      destruct a as [x|v|op|fn|c| |]; try discriminate.
-      - injection E as <- <-. exists (TNum x), s0, 1. repeat split; try reflexivity; exact Hf.
-      - injection E as <- <-. exists (TVar v), s0, 1. repeat split; try reflexivity; exact Hf.
-      - destruct (oper_eqb op OSub) eqn:Eo; [|discriminate]. destruct op; try discriminate. contradiction.
-      - injection E as <- <-. exists (TConst c), s0, 1. repeat split; try reflexivity; exact Hf.
-      - rewrite (glue_inert TLParen s0) in E by reflexivity.
-        destruct (parse_expr f (implied_mul s0) 0) as [[e1 r1]|e1|w1] eqn:E1; cbn [bind] in E; try discriminate.
-        destruct r1 as [|t1 r2]; [discriminate|]. destruct t1; try discriminate.
-        injection E as <- <-.
-        assert (Hnm' : no_minus_head s0).
-        { destruct s0 as [|b2 s2]; [exact I|]. pose proof (fragJ_pair _ _ _ Hf) as Hp.
-          destruct b2 as [| |o2| | | |]; try exact I. destruct o2; try exact I. discriminate. }
-        destruct (IHf _ _ _ _ Hf0 Hnm' E1) as (s1 & t1 & n & Hn & Er & HI1).
-        destruct (glue_rparen _ _ _ HI1 (eq_sym Er)) as (s2 & -> & -> & HI2).
-        exists TRParen, s2, (S n). split; [|split; [reflexivity|exact HI2]].
-        unfold level_ofJ in Hn. cbn in Hn. cbn [rd]. rewrite Hn, erase_set_paren. reflexivity. }
-    destruct Hatom as (l & r0 & E & t1 & s1 & na & Hatom & -> & HI1).
-    rewrite E in H. cbn [bind] in H.
-    destruct (strip_fac_glue s1 t1 l HI1) as (t2 & s2 & E2 & Hb & HI2).
-    pose proof (strip_fac_head (glue t1 s1) l) as Hsf.
-    rewrite E2 in H, Hsf. cbn [snd] in Hsf.
-    set (l' := fst (strip_fac l (glue t1 s1))) in *.
-    assert (Hpost : rd (S na) LPostfix (a :: s0) = Some (erase l', s2)).
-    { cbn [rd]. rewrite Hatom, Hb. reflexivity. }
-    destruct (bin_loopJ f IHf _ _ _ _ _ _ _ HI2 Hsf H) as (s'' & t'' & -> & HI'' & K0 & N0 & Ht).
+    intros H. cbn [bin_loop]. destruct r as [|[| |o| | | |] r]; try reflexivity.
+    cbn in H. destruct H as (_ & H). apply Nat.ltb_lt in H. rewrite H. reflexivity.
+  Qed.
+
+  Lemma strip_fac_nonfac_head (l : tree) r : head_not_fac r -> strip_fac l r = (l, r).
+  Proof. destruct r as [|[| |o| | | |] r]; try reflexivity. destruct o; try reflexivity. contradiction. Qed.
+
+  (* a product behind a minus sign: the reference puts the minus on the first factor *)
+  Lemma neg_product n (s0 : list tok) x s1 : rd n LProduct s0 = Some (x, s1) ->
+    exists n' w, rd n' LProduct (TOp OSub :: s0) = Some (w, s1) /\ Push x w.
+  Proof.
+    intros H. destruct n as [|n]; [discriminate|]. cbn [rd] in H.
+    destruct (rd n LUnary s0) as [[f0 r0]|] eqn:E1; [|discriminate].
+    destruct (chain_push _ _ _ _ _ _ _ (Push_here f0) H) as (w & Hw & HP).
+    destruct (asm_product _ _ _ (TOp OSub :: s0) _ _ _ _ (asm_neg_unary _ _ _ _ E1) Hw) as (n' & Hn').
+    exists n', w. split; assumption.
+  Qed.
+
+  (* the phrase that follows the first one, down to the level of bp *)
+  Lemma finish f : SimJ f ->
+    forall (ts : list tok) bp l t2 s2 e r' na acc,
+      rd na LPostfix ts = Some (acc, s2) -> simr l acc -> Inv t2 s2 -> head_not_fac (glue t2 s2) ->
+      no_minus_head ts ->
+      bin_loop (parse_expr f) f l (glue t2 s2) bp = Ok (e, r') ->
+      exists s' t n x, rd n (level_ofJ bp) ts = Some (x, s') /\ simr e x /\ r' = glue t s' /\ Inv t s'.
+  Proof.
+    intros HSim ts bp l t2 s2 e r' na acc Hpost Hacc HI2 Hsf Hnm H.
+    destruct (bin_loopJ f HSim _ _ _ _ _ _ _ acc HI2 Hsf Hacc H) as (s'' & t'' & x & -> & HI'' & Hx & K0 & N0 & Ht).
     exists s'', t''.
     specialize (Ht K0 K0 K0 K0 N0 (le_n _) (le_n _) (le_n _) (le_n _) (le_n _)).
     unfold tailsJ in Ht. unfold level_ofJ.
     destruct (6 <=? bp).
-    { injection Ht as <- <-. exists (S (S na)). split; [|split; [reflexivity|exact HI'']].
+    { injection Ht as <- <-. exists (S na), acc. split; [|split; [exact Hx|split; [reflexivity|exact HI'']]].
       apply asm_exponent; assumption. }
-    destruct (chain K0 (rd N0 LExponent) power_op (erase l') s2) as [[x1 r1]|] eqn:C1; [|discriminate].
+    destruct (chain K0 (rd N0 LExponent) power_op acc s2) as [[x1 r1]|] eqn:C1; [|discriminate].
     destruct (asm_power _ _ _ _ _ _ _ _ Hpost C1) as (np & Hp).
     destruct (5 <=? bp).
-    { injection Ht as <- <-. exists np. split; [exact Hp|split; [reflexivity|exact HI'']]. }
+    { injection Ht as <- <-. exists np, x1. split; [exact Hp|split; [exact Hx|split; [reflexivity|exact HI'']]]. }
     destruct (juxt_chain K0 (rd N0 LPower) x1 r1) as [[a2 r2]|] eqn:C2; [|discriminate].
     destruct (asm_juxt _ _ _ _ _ _ _ _ Hp C2) as (nj & Hj).
     pose proof (asm_unary _ _ _ Hnm Hj) as Hu.
     destruct (3 <=? bp).
-    { injection Ht as <- <-. exists (S nj). split; [exact Hu|split; [reflexivity|exact HI'']]. }
+    { injection Ht as <- <-. exists (S nj), a2. split; [exact Hu|split; [exact Hx|split; [reflexivity|exact HI'']]]. }
     destruct (chain K0 (rd N0 LUnary) product_op a2 r2) as [[b3 r3]|] eqn:C3; [|discriminate].
     destruct (asm_product _ _ _ _ _ _ _ _ Hu C3) as (npr & Hpr).
     destruct (2 <=? bp).
-    { injection Ht as <- <-. exists npr. split; [exact Hpr|split; [reflexivity|exact HI'']]. }
+    { injection Ht as <- <-. exists npr, b3. split; [exact Hpr|split; [exact Hx|split; [reflexivity|exact HI'']]]. }
     destruct (asm_sum _ _ _ _ _ _ _ _ Hpr Ht) as (ns & Hs).
-    exists ns. split; [exact Hs|split; [reflexivity|exact HI'']].
+    exists ns, x. split; [exact Hs|split; [exact Hx|split; [reflexivity|exact HI'']]].
+  Qed.
+
+  Lemma simJ : forall f, SimJ f.
+  Proof.
+    induction f as [|f IHf]; intros s bp e r' Hf Hn5 H; [discriminate|].
+    destruct s as [|a s0]; [discriminate|].
+    rewrite im_cons in H. rewrite parse_expr_unfold in H.
+    destruct (fragJ_cons _ _ Hf) as (Hplain & Hf0).
+    destruct a as [x|v|op|fn|c| |].
+    - (* number *)
+      cbn [prefix_part bind] in H.
+      assert (HI : Inv (TNum x) s0) by (split; [reflexivity|exact Hf]).
+      destruct (strip_fac_glue s0 (TNum x) (ENum x) (ENum x) HI (sr_num x)) as (t2 & s2 & acc & E2 & Hb & Hs & HI2).
+      pose proof (strip_fac_head (glue (TNum x) s0) (ENum x)) as Hsf. rewrite E2 in H, Hsf. cbn [snd] in Hsf.
+      apply (finish f IHf (TNum x :: s0) bp _ t2 s2 e r' 1 acc); try assumption; [|exact I].
+      cbn [rd]. rewrite Hb. reflexivity.
+    - (* variable *)
+      cbn [prefix_part bind] in H.
+      assert (HI : Inv (TVar v) s0) by (split; [reflexivity|exact Hf]).
+      destruct (strip_fac_glue s0 (TVar v) (EVar v) (EVar v) HI (sr_var v)) as (t2 & s2 & acc & E2 & Hb & Hs & HI2).
+      pose proof (strip_fac_head (glue (TVar v) s0) (EVar v)) as Hsf. rewrite E2 in H, Hsf. cbn [snd] in Hsf.
+      apply (finish f IHf (TVar v :: s0) bp _ t2 s2 e r' 1 acc); try assumption; [|exact I].
+      cbn [rd]. rewrite Hb. reflexivity.
+    - (* an operator first: only a prefix minus *)
+      cbn [prefix_part] in H. destruct (oper_eqb op OSub) eqn:Eo; [|discriminate].
+      destruct op; try discriminate. clear Eo.
+      assert (Hbp : bp <> 5) by (intros ->; apply (Hn5 eq_refl)).
+      rewrite (glue_inert (TOp OSub) s0) in H by reflexivity.
+      destruct (parse_expr f (implied_mul s0) (Nat.max bp BP_PREFIX_MINUS)) as [[v r1]|e0|w] eqn:E; cbn [bind] in H; try discriminate.
+      pose proof (parse_expr_head f _ _ _ _ E) as Hhead.
+      assert (Hn5' : Nat.max bp BP_PREFIX_MINUS = 5 -> no_minus_head s0) by (unfold BP_PREFIX_MINUS; lia).
+      destruct (IHf _ _ _ _ Hf0 Hn5' E) as (s1 & t1 & n & x & Hrd & Hx & -> & HI1).
+      rewrite (strip_fac_nonfac_head _ _ (head_ok_not_fac _ _ Hhead)) in H.
+      destruct f as [|f']; [discriminate|].
+      unfold BP_PREFIX_MINUS in *.
+      destruct (Nat.leb_spec 2 bp) as [H2|H2].
+      + (* bp >= 2: the loop stops at once *)
+        replace (Nat.max bp 2) with bp in * by lia.
+        rewrite (bin_loop_exit _ _ _ _ _ Hhead) in H. injection H as <- <-.
+        exists s1, t1. unfold level_ofJ in Hrd |- *.
+        destruct (Nat.leb_spec 6 bp).
+        { exists (S n), (EPre OSub x). split; [apply asm_neg_exponent; exact Hrd|].
+          split; [constructor; exact Hx|split; [reflexivity|exact HI1]]. }
+        destruct (Nat.leb_spec 5 bp); [lia|].
+        destruct (Nat.leb_spec 3 bp).
+        { exists (S n), (EPre OSub x). split; [apply asm_neg_unary; exact Hrd|].
+          split; [constructor; exact Hx|split; [reflexivity|exact HI1]]. }
+        destruct (Nat.leb_spec 2 bp); [|lia].
+        destruct (neg_product _ _ _ _ Hrd) as (n' & w & Hw & HP).
+        exists n', w. split; [exact Hw|]. split; [apply (sr_push _ _ _ Hx HP)|split; [reflexivity|exact HI1]].
+      + (* bp <= 1: a product behind the minus, then the sum goes on *)
+        replace (Nat.max bp 2) with 2 in * by lia.
+        unfold level_ofJ in Hrd. cbn in Hrd.
+        destruct (neg_product _ _ _ _ Hrd) as (n' & w & Hw & HP).
+        destruct (bin_loopJ (S f') IHf _ _ _ _ _ _ _ w HI1 (head_ok_not_fac _ _ Hhead) (sr_push _ _ _ Hx HP) H)
+          as (s'' & t'' & xx & -> & HI'' & Hxx & K0 & N0 & Ht).
+        specialize (Ht (S K0) (S K0) (S K0) (S K0) N0 ltac:(lia) ltac:(lia) ltac:(lia) ltac:(lia) (le_n _)).
+        destruct (skips t1 s1 2 HI1 Hhead) as (S1 & S2 & S3).
+        unfold tailsJ in Ht. unfold level_ofJ.
+        destruct (Nat.leb_spec 6 bp); [lia|]. destruct (Nat.leb_spec 5 bp); [lia|].
+        destruct (Nat.leb_spec 3 bp); [lia|]. destruct (Nat.leb_spec 2 bp); [lia|].
+        rewrite S1, S2, S3 in Ht by lia.
+        destruct (asm_sum _ _ _ _ _ _ _ _ Hw Ht) as (ns & Hs).
+        exists s'', t'', ns, xx. split; [exact Hs|split; [exact Hxx|split; [reflexivity|exact HI'']]].
+    - (* function *)
+      cbn [prefix_part] in H. rewrite (glue_inert (TFun fn) s0) in H by reflexivity.
+      destruct s0 as [|b s00]; [discriminate|]. rewrite im_cons in H.
+      destruct b; try discriminate.
+      rewrite (glue_inert TLParen s00) in H by reflexivity.
+      destruct (parse_expr f (implied_mul s00) 0) as [[e1 r1]|e1|w1] eqn:E1; cbn [bind] in H; try discriminate.
+      destruct r1 as [|t1 r2]; [discriminate|]. destruct t1; try discriminate.
+      destruct (fragJ_cons _ _ Hf0) as (_ & Hf00).
+      destruct (IHf _ _ _ _ Hf00 ltac:(discriminate) E1) as (s1 & t1 & n & x & Hn & Hx & Er & HI1).
+      destruct (glue_rparen _ _ _ HI1 (eq_sym Er)) as (s2' & -> & -> & HI2').
+      unfold level_ofJ in Hn. cbn in Hn. cbn [bind] in H.
+      destruct (strip_fac_glue s2' TRParen (EFun fn e1) (EFun fn x) HI2' (sr_fun _ _ _ Hx)) as (t2 & s2 & acc & E2 & Hb & Hs & HI2).
+      pose proof (strip_fac_head (glue TRParen s2') (EFun fn e1)) as Hsf. rewrite E2 in H, Hsf. cbn [snd] in Hsf.
+      apply (finish f IHf (TFun fn :: TLParen :: s00) bp _ t2 s2 e r' (S (S n)) acc); try assumption; [|exact I].
+      cbn [rd]. rewrite Hn, Hb. reflexivity.
+    - (* constant *)
+      cbn [prefix_part bind] in H.
+      assert (HI : Inv (TConst c) s0) by (split; [reflexivity|exact Hf]).
+      destruct (strip_fac_glue s0 (TConst c) (EConst c) (EConst c) HI (sr_const c)) as (t2 & s2 & acc & E2 & Hb & Hs & HI2).
+      pose proof (strip_fac_head (glue (TConst c) s0) (EConst c)) as Hsf. rewrite E2 in H, Hsf. cbn [snd] in Hsf.
+      apply (finish f IHf (TConst c :: s0) bp _ t2 s2 e r' 1 acc); try assumption; [|exact I].
+      cbn [rd]. rewrite Hb. reflexivity.
+    - (* parenthesis *)
+      cbn [prefix_part] in H. rewrite (glue_inert TLParen s0) in H by reflexivity.
+      destruct (parse_expr f (implied_mul s0) 0) as [[e1 r1]|e1|w1] eqn:E1; cbn [bind] in H; try discriminate.
+      destruct r1 as [|t1 r2]; [discriminate|]. destruct t1; try discriminate.
+      destruct (IHf _ _ _ _ Hf0 ltac:(discriminate) E1) as (s1 & t1 & n & x & Hn & Hx & Er & HI1).
+      destruct (glue_rparen _ _ _ HI1 (eq_sym Er)) as (s2' & -> & -> & HI2').
+      unfold level_ofJ in Hn. cbn in Hn. cbn [bind] in H.
+      destruct (strip_fac_glue s2' TRParen (set_paren e1) x HI2' (simr_set_paren _ _ Hx)) as (t2 & s2 & acc & E2 & Hb & Hs & HI2).
+      pose proof (strip_fac_head (glue TRParen s2') (set_paren e1)) as Hsf. rewrite E2 in H, Hsf. cbn [snd] in Hsf.
+      apply (finish f IHf (TLParen :: s0) bp _ t2 s2 e r' (S (S n)) acc); try assumption; [|exact I].
+      cbn [rd]. rewrite Hn, Hb. reflexivity.
+    - (* a closing parenthesis first *)
+      discriminate.
   Qed.
 
   Lemma glue_nil t s : Inv t s -> glue t s = [] -> s = [].
@@ -372,38 +505,13 @@ Section ReadJ.
   Qed.
 
   Lemma parse_unfolded_readsJ : forall (ts : list tok) e,
-    fragmentJ ts -> parse_unfolded ts = Ok e -> ref_read ts = Some (erase e).
+    fragJ ts = true -> parse_unfolded ts = Ok e -> exists x, ref_read ts = Some x /\ simr e x.
   Proof.
-    intros ts e (Hf & Hnm) H. unfold parse_unfolded in H.
+    intros ts e Hf H. unfold parse_unfolded in H.
     destruct (parse_expr (S (length (implied_mul ts))) (implied_mul ts) 0) as [[e1 r]|e1|w] eqn:E; cbn [bind] in H; try discriminate.
     destruct r; [|discriminate]. injection H as <-.
-    destruct (simJ _ _ _ _ _ Hf Hnm E) as (s' & t & n & Hn & Er & HI).
+    destruct (simJ _ _ _ _ _ Hf ltac:(discriminate) E) as (s' & t & n & x & Hn & Hx & Er & HI).
     rewrite (glue_nil _ _ HI (eq_sym Er)) in Hn.
-    apply (ref_read_of_rd n). exact Hn.
+    exists x. split; [apply (ref_read_of_rd n); exact Hn|exact Hx].
   Qed.
 End ReadJ.
-
-(* ---- values (R instance) ----------------------------------------------------------------------------------- *)
-From Coq Require Import Reals.
-From SV Require Import Proofs.ExprFold.
-
-Lemma c19_parser_reads_partial_lemma : forall (ts : list (token R)) (e : expr R),
-  fragmentJ ts -> parse_unfolded ts = Ok e ->
-  exists e', ref_read ts = Some e' /\ e' = erase e /\ forall rho, denote e rho = denote e' rho.
-Proof.
-  intros ts e Hf H. exists (erase e). split; [apply parse_unfolded_readsJ; assumption|].
-  split; [reflexivity|]. intros rho. symmetry. apply denote_erase.
-Qed.
-
-Lemma c19_parser_reads_folded_partial_lemma : forall (ts : list (token R)) (e : expr R),
-  fragmentJ ts -> parser ts = Ok e ->
-  exists u e', parse_unfolded ts = Ok u /\ ref_read ts = Some e' /\
-    forall rho v, denote e' rho = Some v -> pow_safe u rho -> denote e rho = Some v.
-Proof.
-  intros ts e Hf H. unfold parser in H.
-  destruct (parse_unfolded ts) as [u|e0|w] eqn:E; cbn [bind] in H; try discriminate.
-  exists u, (erase u). split; [reflexivity|]. split; [apply parse_unfolded_readsJ; assumption|].
-  intros rho v Hv Hs. rewrite denote_erase in Hv.
-  rewrite fold_operations_foldS in H. injection H as <-.
-  apply foldS_sound; assumption.
-Qed.
